@@ -51,11 +51,14 @@ def tt_pad(E, s):
         v = E.scalar('v', 'float', s['dtype'])
     else:
         v = s['value']
+    p_arg = [tuple(p) for p in padding] if s.get('pad_as_list') else padding
     if s.get('default_value'):
-        z = E.tt.pad(x, padding)
+        z = E.tt.pad(x, p_arg)
         v = 0.0
     else:
-        z = E.tt.pad(x, padding, v)
+        z = E.tt.pad(x, p_arg, v)
+    if s.get('pad_as_list'):
+        E.true('padding_argument_intact', p_arg == [tuple(p) for p in padding])
     ref = _dense_pad(E, dense(E, xc), padding, v)
     E.true('is_tt', isinstance(z, E.tt.TT))
     E.eq('value', dense(E, z.cores), ref)
@@ -81,7 +84,10 @@ def ttm_pad(E, s):
         v = E.scalar('v', 'float', s['dtype'])
     else:
         v = s['value']
-    Z = E.tt.pad(A, padding, v)
+    p_arg = [tuple(p) for p in padding] if s.get('pad_as_list') else padding
+    Z = E.tt.pad(A, p_arg, v)
+    if s.get('pad_as_list'):
+        E.true('padding_argument_intact', p_arg == [tuple(p) for p in padding])
     Ad = dense(E, Ac)          # M1..Md N1..Nd
     k = len(padding)
     pads = [(0, 0)] * (d - k) + [tuple(p) for p in padding]
@@ -119,12 +125,20 @@ def tt_diag(E, s):
         E.true('shape', list(A.M) == list(s['N']) and list(A.N) == list(s['N']))
         E.true('dtype', all(E.dtname(c) == s['dtype'] for c in A.cores))
     else:
-        A, Ac = tt_input(E, 'A', s['N'], s['R'], s['dtype'], s['N'], via=s.get('via'))
+        M = s.get('M', s['N'])
+        A, Ac = tt_input(E, 'A', s['N'], s['R'], s['dtype'], M, via=s.get('via'))
         x = E.tt.diag(A)
         Ad = dense(E, Ac)
-        n = prod(s['N'])
-        ref = tn.reshape(tn.diag(tn.reshape(Ad, [n, n])), list(s['N']))
+        if list(M) == list(s['N']):
+            n = prod(s['N'])
+            ref = tn.reshape(tn.diag(tn.reshape(Ad, [n, n])), list(s['N']))
+        else:
+            # rectangular modes: T[i1..id] = A[i1..id, i1..id] with i_k < min(M_k, N_k) (mode-wise torch.diagonal)
+            ref = Ad
+            for k in range(d):
+                ref = tn.diagonal(ref, 0, 0, d - k)
         E.true('is_tt', isinstance(x, E.tt.TT) and not x.is_ttm)
+        E.true('shape', list(x.N) == [min(m, n) for m, n in zip(M, s['N'])])
         E.eq('value', dense(E, x.cores), ref)
         E.true('dtype', all(E.dtname(c) == s['dtype'] for c in x.cores))
 
